@@ -11,7 +11,7 @@ import traceback
 import z3
 
 from . import core
-from .core import Engine, Abort, Unsupported, Budget, set_engine, as_bool, W
+from .core import Engine, Abort, Unsupported, Budget, Divergence, set_engine, as_bool, W
 from .values import (SymInt, SymBool, SymBytes, AtomStr, signed, parse_template, render_template,
                      describe_template, has_atoms, eval_item, Atom)
 
@@ -326,6 +326,9 @@ def explore(fn, structure, max_paths=100000, max_seconds=600.0, sample_every=97,
                 continue
             except Budget as e:
                 status, reason = 'unsupported', 'Budget escaped the harness: %s' % e
+                break
+            except Divergence as e:
+                status, reason = 'harness-error', 're-execution diverged: %s\n%s' % (e, traceback.format_exc(limit=12))
                 break
             except Exception as e:
                 status = 'harness-error'
